@@ -113,13 +113,13 @@ class Pool:
         import pypulseq as pp
         r = self.rng
         return pp.make_adc(r.choice([16, 32, 64]), dwell=r.choice([1e-5, 2e-5, 1.0000004e-5]),
-                           delay=r.choice([0, 1e-4, 1.000004e-4, 2e-5]), freq_offset=r.choice([0, 50.0]),
-                           phase_offset=r.choice([0, 0.25]), system=self.sys)
+                           delay=r.choice([0, 1e-4, 1.000004e-4, 2e-5]), freq_offset=r.choice([0, 50.0, -1.0, -2.0]),
+                           phase_offset=r.choice([0, 0.25, -1.0, -2.0]), system=self.sys)
 
     def label(self):
         import pypulseq as pp
         r = self.rng
-        return pp.make_label(r.choice(sm.labels()), r.choice(['SET', 'INC']), r.choice([0, 1, 2, 3, -1, 7]))
+        return pp.make_label(r.choice(sm.labels()), r.choice(['SET', 'INC']), r.choice([0, 1, 2, 3, -1, -2, 7]))
 
     def trig(self):
         import pypulseq as pp
@@ -328,7 +328,25 @@ class Twin:
         return self._record('dedupip', 'dedupip', res)
 
     def dedup_copy(self):
-        res = self._both(lambda s: sm.state_dump(s.remove_duplicates()))
+        def copy_and_use(s):
+            import pypulseq as pp
+            c = s.remove_duplicates()
+            dump = sm.state_dump(c)
+            # the copy is the caller's to use: overwrite a block of it and decode all of it (its cache, its libraries) --
+            # nothing of that may show on the object it was copied from
+            try:
+                ids = list(c.block_events.keys())
+                if ids:
+                    try:
+                        c.set_block(ids[0], pp.make_delay(0.123))
+                    except Exception:  # noqa: BLE001
+                        pass
+                    for i in ids:
+                        c.get_block(i)
+            except Exception:  # noqa: BLE001
+                pass
+            return dump
+        res = self._both(copy_and_use)
         return self._record('dedupcp', 'dedupcp', res)
 
     def write_read(self, do_read=True, detect_rf_use=False):
